@@ -59,7 +59,14 @@ def main() -> int:
         with open(a.cases_file) as f:
             case_iter = iter(json.load(f))
     else:
-        case_iter = prop.cases(a.tier, a.seed, a.shard, a.nshards)
+        def rounds():
+            n = int(os.environ.get("VF_THOROUGH_ROUNDS", prop.thorough_rounds)) if a.tier == "thorough" else 1
+            for k in range(max(1, n)):
+                for case in prop.cases(a.tier, a.seed + 7919 * k, a.shard, a.nshards):
+                    if k and isinstance(case, dict) and case.get("kind") in prop.once_kinds:
+                        continue
+                    yield case
+        case_iter = rounds()
 
     curfd = os.open(a.out + ".cur", os.O_WRONLY | os.O_CREAT | os.O_TRUNC, 0o644)
     errlog = open(a.out + ".err", "a")
